@@ -695,6 +695,43 @@ fn do_pf(rep: &mut Report, code: u32, src: &str) {
         rep.sample(json!({"request": req, "impl": ans}));
     }
     rep.expect(req, ans);
+    // The same code THROUGH the two duplicated specific-leader decoders (`ImageLeader` and
+    // `ImageExtendedChunkLeader` each carry their own `read u32 -> try_into`) and, except for the
+    // bulk random stream, through the builder: model differential + PFNC oracle on each.
+    for ptype in [T_IMAGE, T_EXT] {
+        let lb = pf_leader(code, ptype);
+        do_leader(rep, &lb, &format!("pf-{src}"));
+        if src != "random" {
+            let tb = TrailerSpec { magic: TRAILER_MAGIC, r1: 0, size: 36, id: 7, status: 0, r2: 0, valid: 8, kind: ptype,
+                height: 2, layout: 1 }
+            .bytes();
+            // 8 zero bytes = one empty chunk, so the extended-chunk walk succeeds with image size 0
+            let c = BuildCase { leader: lb, trailer: tb, len: 8, seed: 1, patches: vec![(0, vec![0u8; 8])], recv: 8 };
+            do_build(rep, &c, &format!("pf-{src}"));
+        }
+    }
+}
+
+/// A complete 52-byte leader of the given payload type carrying pixel-format code `code`;
+/// the other fields are derived from the code so that the packets differ.
+fn pf_leader(code: u32, ptype: u16) -> Vec<u8> {
+    LeaderSpec {
+        magic: LEADER_MAGIC,
+        r1: 0,
+        size: 52,
+        id: 0x1000 + code as u64,
+        r2: 0,
+        ptype,
+        ts: ((code as u64) << 3) | 5,
+        pf: code,
+        w: 640 + (code & 0xff),
+        h: 480 + ((code >> 8) & 0xff),
+        xo: (code >> 16) & 0xfff,
+        yo: code & 0xf,
+        xp: (code >> 4) as u16,
+        r3: 0,
+    }
+    .bytes()
 }
 
 // ---------------------------------------------------------------------------
@@ -810,6 +847,11 @@ fn impl_ptype(t: PT) -> (&'static str, u16) {
 }
 
 fn do_build(rep: &mut Report, c: &BuildCase, src: &str) {
+    // C11_TRACE=1: print every builder request before running it (a hang or an abort of the
+    // implementation cannot be caught; the last line printed is then the failing input)
+    if std::env::var_os("C11_TRACE").is_some() {
+        eprintln!("{}", c.request());
+    }
     let buf = c.buf();
     let in_premise = c.recv <= buf.len();
     let r: Result<Result<Payload, &'static str>, ()> =
@@ -858,7 +900,17 @@ fn do_build(rep: &mut Report, c: &BuildCase, src: &str) {
             let info = p.image_info().cloned();
             let image = catch(|| p.image().map(|s| s.to_vec()));
             let view = catch(|| p.payload().to_vec());
-            let vec = catch(|| p.clone().into_vec());
+            // `into_vec` zero-extends to valid_payload_size: on the unchanged code a built payload has
+            // valid <= recv (<= buffer length + 3000 in the generators), but a defective builder may
+            // let a declared size of 2^32.. through; never allocate that (it made one run crawl for
+            // 40 minutes and a 2^40 size would abort the process).  The declared size is read from
+            // the trailer bytes by the independent decode.
+            let declared = ref_trailer(&c.trailer).map(|t| t.valid).unwrap_or(0);
+            let vec: Result<Option<Vec<u8>>, ()> = if declared <= buf.len() as u64 + 16_384 {
+                catch(|| Some(p.clone().into_vec()))
+            } else {
+                Ok(None)
+            };
             let (tname, tcode) = impl_ptype(p.payload_type());
             let valid = view.as_ref().map(|v| v.len() as u64).ok();
             if in_premise {
@@ -895,7 +947,11 @@ fn do_build(rep: &mut Report, c: &BuildCase, src: &str) {
                 }
                 match &vec {
                     Err(()) => problems.push(("view-panic".into(), "Payload::into_vec() panics".into())),
-                    Ok(v) => {
+                    Ok(None) => problems.push((
+                        "bounds".into(),
+                        format!("payload built although the trailer declares {declared} valid bytes for a {}-byte buffer", buf.len()),
+                    )),
+                    Ok(Some(v)) => {
                         if view.as_ref().ok() != Some(v) {
                             problems.push(("content".into(), "into_vec() differs from payload()".into()));
                         }
@@ -934,7 +990,7 @@ fn do_build(rep: &mut Report, c: &BuildCase, src: &str) {
                 // valid_payload_size is private: observable as payload().len() / into_vec().len()
                 match (&view, &vec) {
                     (Ok(v), _) => v.len().to_string(),
-                    (_, Ok(v)) => v.len().to_string(),
+                    (_, Ok(Some(v))) => v.len().to_string(),
                     _ => "?".into(),
                 },
                 match &info {
@@ -948,7 +1004,8 @@ fn do_build(rep: &mut Report, c: &BuildCase, src: &str) {
                 },
                 match &vec {
                     Err(()) => "panic".to_string(),
-                    Ok(b) => digest(b),
+                    Ok(None) => "not-run(declared size far above the buffer)".to_string(),
+                    Ok(Some(b)) => digest(b),
                 }
             )
         }
@@ -1032,7 +1089,9 @@ fn main() {
         "C11",
         "leader/trailer byte strings: valid packets of every type, each truncated at every offset, byte/bit mutations, \
          random strings, all 65536 payload-type and status codes; pixel formats: every code the implementation accepts \
-         (found by a sweep of the u32 space) + all literals in the source + neighbours + random codes; builder: exhaustive \
+         (found by a sweep of the u32 space) + all literals in the source + every PFNC reference code + neighbours + bit flips + \
+         random codes, each probed directly AND inside an image leader and an image-extended-chunk leader (both duplicated \
+         decoders) and, except the bulk random ones, through the builder; builder: exhaustive \
          small grid (type x buffer length x received x valid_payload_size) + structured chunk layouts with corrupted length \
          fields + boundary sizes; a case is non-trivial when the implementation returns Ok (packet decoded / code known / \
          payload built); distinct by full request",
